@@ -66,6 +66,17 @@ CHECKS = {
         "Trusted: nothing beyond the public API. Bounds: <=14 options, <=12 operations plus targeted assignments.",
         "DESIGN.md 3/C10",
     ),
+    "C09": (
+        "exploration",
+        "property-based testing with fault injection into the input: one generated back edge per acyclic tree; totality check on accepted trees (Hypothesis)",
+        "Acyclic-by-construction trees must load with both parsers and evaluate every observable under generated assignments without "
+        "any exception; the same tree with one back edge of a drawn kind (16 kinds, incl. set value symbols, visible-if, choice "
+        "membership) must be rejected with a 'Dependency loop' KconfigError naming the cycle. Exploration: both directions of the "
+        "statement are executable predicates over generated programs.",
+        "Trusted: the AST dependency graph (vk/astgraph.py) that says where a back edge closes a cycle; trees containing a condition "
+        "that is literally `n` are only judged by the acyclic clause (constant folding removes edges there). Bounds: <=12 options.",
+        "DESIGN.md 3/C09",
+    ),
 }
 
 NOT_YET = {}
